@@ -68,12 +68,17 @@ structure CallCfg where
   authority : Bytes
   subtype : Bytes
   userAgent : Bytes
+  /-- `t.registeredCompressors` = `grpcutil.RegisteredCompressors()`: the names registered with
+      `encoding.RegisterCompressor` in the process, comma separated ("" = none). -/
+  acceptEncoding : Bytes := []
 
-/-- The fixed fields `createHeaderFields` puts first (no compressor, no deadline, no creds). -/
+/-- The fixed fields `createHeaderFields` puts first (no send-compressor, no deadline, no creds):
+    the seven mandatory ones, then `grpc-accept-encoding` when any compressor is registered. -/
 def baseFields (c : CallCfg) : List Field :=
   [(asciiBytes ":method", asciiBytes "POST"), (asciiBytes ":scheme", c.scheme), (asciiBytes ":path", c.path),
    (asciiBytes ":authority", c.authority), (hContentType, contentTypeOf c.subtype),
-   (asciiBytes "user-agent", c.userAgent), (asciiBytes "te", asciiBytes "trailers")]
+   (asciiBytes "user-agent", c.userAgent), (asciiBytes "te", asciiBytes "trailers")] ++
+  (if c.acceptEncoding.isEmpty then [] else [(asciiBytes "grpc-accept-encoding", c.acceptEncoding)])
 
 /-- `none` = the RPC fails with INTERNAL in `newClientStream`, before any transport call. -/
 def clientSend (c : CallCfg) (md : MD) (added : List (Bytes × Bytes)) : Option (List Field) :=
